@@ -19,6 +19,7 @@ import (
 	"pgregory.net/rapid"
 
 	"verif/ev"
+	"verif/pgen"
 	"verif/sdsl"
 	"verif/world"
 )
@@ -360,6 +361,20 @@ func genC05(t *rapid.T) c05Case {
 		base.Subsets = nil
 	}
 	base.Debris = nil
+	if rapid.IntRange(0, 1).Draw(t, "chain") == 0 {
+		// deep store chains: 2..3 store stages below the mapper, a production request starting a few segments in
+		base.Prog = pgen.GenChain(t, rapid.IntRange(2, 3).Draw(t, "chaindepth"), []uint64{0, 0, 0, 1, base.Seg})
+		init := base.Prog.Mod("out").Initial
+		base.Run = runSpec{Prod: rapid.IntRange(0, 3).Draw(t, "chainprod") > 0, Output: "out", Final: base.Head}
+		base.Run.Start = init + rapid.Uint64Range(0, 3*base.Seg).Draw(t, "chainstart")
+		base.Run.Stop = base.Run.Start + rapid.Uint64Range(1, 2*base.Seg).Draw(t, "chainlen")
+		if base.Run.Stop > base.Head {
+			base.Run.Stop = base.Head
+		}
+		if base.Run.Stop <= base.Run.Start {
+			base.Run.Stop = base.Run.Start + 1
+		}
+	}
 	base.Run.Workers = rapid.IntRange(1, 3).Draw(t, "c05workers")
 	return c05Case{Base: base}
 }
